@@ -499,11 +499,11 @@ class SArr(core._ArrLike):
         return self._binop(o, _ne, dtype="b")
 
     # reductions as methods
-    def min(self, axis=None):
-        return amin(self, axis)
+    def min(self, axis=None, initial=None):
+        return amin(self, axis, initial)
 
-    def max(self, axis=None):
-        return amax(self, axis)
+    def max(self, axis=None, initial=None):
+        return amax(self, axis, initial)
 
     def sum(self, axis=None):
         return sum(self, axis)
@@ -780,7 +780,7 @@ def _truediv(a, b):
 
 def zeros(shape, dtype=None):
     dt = _dtype_of(dtype) if dtype is not None else "f"
-    z = 0 if dt == "i" else 0.0
+    z = 0 if dt == "i" else (False if dt == "b" else 0.0)
     if isinstance(shape, tuple):
         shape = tuple(_idx(s) for s in shape)
     else:
@@ -806,7 +806,7 @@ def empty(shape, dtype=None):
 
 def ones(shape, dtype=None):
     a = zeros(shape, dtype)
-    a.fill(1 if a.dtype == "i" else 1.0)
+    a.fill(1 if a.dtype == "i" else (True if a.dtype == "b" else 1.0))
     return a
 
 
@@ -891,13 +891,20 @@ def vstack(tup):
 
 
 def hstack(tup):
+    arrs = [asarray(a) for a in tup]
+    if arrs and _bi.all(a.ndim == 2 for a in arrs):
+        nr = arrs[0].shape[0]
+        if not _bi.all(a.shape[0] == nr for a in arrs):
+            raise ValueError("all the input array dimensions except for the concatenation axis must match exactly")
+        rows = [[v for a in arrs for v in a[i].flat()] for i in range(nr)]
+        nc = _bi.sum(a.shape[1] for a in arrs)
+        return SArr(Buf([v for r in rows for v in r]), (nr, nc), dtype=_infer_dtype([v for r in rows for v in r]) if nr * nc else "f")
     vals = []
-    for a in tup:
-        a = asarray(a)
+    for a in arrs:
         if a.ndim != 1:
-            raise Unsupported("hstack of non 1-d arrays")
+            raise Unsupported("hstack of arrays with different ndim")
         vals.extend(a.flat())
-    return SArr(Buf(vals), (len(vals),))
+    return SArr(Buf(vals), (len(vals),), dtype=_infer_dtype(vals) if vals else "f")
 
 
 # ---------------------------------------------------------------------------
@@ -1013,11 +1020,15 @@ def nansum(a, axis=None):
     return _reduce(a, axis, _nansumlist)
 
 
-def amax(a, axis=None):
+def amax(a, axis=None, initial=None):
+    if initial is not None:
+        return _reduce(a, axis, lambda vals: _maxlist([initial] + list(vals)))
     return _reduce(a, axis, _maxlist)
 
 
-def amin(a, axis=None):
+def amin(a, axis=None, initial=None):
+    if initial is not None:
+        return _reduce(a, axis, lambda vals: _minlist([initial] + list(vals)))
     return _reduce(a, axis, _minlist)
 
 
@@ -1147,6 +1158,14 @@ class _Random:
             raise Unsupported("np.random.permutation without a harness provider")
         vals = self.provider("permutation", (n, st))
         return SArr(Buf(list(vals)), (len(vals),), dtype="i")
+
+    def shuffle(self, x):
+        """in-place shuffle = apply a permutation drawn from the current generator state"""
+        n = len(x)
+        perm = self.permutation(n).flat()
+        vals = [x[int(i)] if x.ndim == 1 else x[int(i)].copy() for i in perm]
+        for k, v in enumerate(vals):
+            x[k] = v
 
     def uniform(self, low=0.0, high=1.0, size=None):
         st = self._advance()
@@ -1427,3 +1446,55 @@ class _Linalg:
 linalg = _Linalg()
 SArr.T = property(lambda self: transpose(self))
 SArr.reshape = lambda self, *shape: reshape(self, shape[0] if len(shape) == 1 and isinstance(shape[0], (tuple, list)) else shape)
+
+
+def stack(arrays, axis=0):
+    arrs = [asarray(a) for a in arrays]
+    if not _bi.all(a.ndim == 1 and a.shape == arrs[0].shape for a in arrs):
+        raise Unsupported("stack of non 1-d arrays")
+    m = vstack(arrs)
+    return m if axis == 0 else transpose(m).copy()
+
+
+def flatnonzero(a):
+    return argwhere(asarray(a).flatten()).flatten()
+
+
+def atleast_1d(a):
+    if _is_scalar(a):
+        return SArr(Buf([a]), (1,), dtype=_infer_dtype([a]))
+    return asarray(a)
+
+
+def atleast_2d(a):
+    a = atleast_1d(a)
+    if a.ndim == 1:
+        return SArr(a.buf, (1, a.shape[0]), (0, a.strides[0]), a.offset, a.dtype)
+    return a
+
+
+class _UFunc:
+    def __init__(self, f, name):
+        self.f = f
+        self.__name__ = name
+
+    def __call__(self, a, b):
+        return _ew2(a, b, self.f)
+
+    def at(self, a, idx, b):
+        """unbuffered in-place operation: repeated indices accumulate"""
+        if isinstance(idx, tuple):
+            cols = [asarray(i).flat() if not _is_scalar(i) else None for i in idx]
+            n = _bi.max(len(c) for c in cols if c is not None)
+            keys = [tuple(c[k] if c is not None else idx[j] for j, c in enumerate(cols)) for k in range(n)]
+        else:
+            keys = [i for i in (asarray(idx).flat() if not _is_scalar(idx) else [idx])]
+        vals = _bcast_to(b, (len(keys),))
+        for key, v in zip(keys, vals):
+            a[key] = self.f(a[key], v)
+
+
+add = _UFunc(_add, "add")
+subtract = _UFunc(_sub, "subtract")
+multiply = _UFunc(_mul, "multiply")
+divide = _UFunc(_truediv, "divide")
